@@ -26,7 +26,7 @@ TEXT = {
  "C07": ("model_checking", "The real defragmentation planner is driven over real TLSF metadata with symbolic sizes, both algorithms and all copy/ignore/destroy decisions; allocator invariants, reservation of source and destination, source identity and per-move outcomes are decided by the solver at every pass boundary."),
  "C15": ("model_checking", "Forward progress of every proposed move, per-pass limits with symbolic limit values, pass statistics, and equivalence of a reused and a fresh context are asserted on the same symbolic runs. Termination itself is not decided (stated in the evidence)."),
 }
-NOTE = "Trusted: the symgo engine (own SSA interpreter, validated on every run by native replay of sampled paths), go/ssa, z3 4.8.12 (a sample of queries re-decided by z3 5.1.0 and cvc5), the harness oracles. Environment stubs are listed in DESIGN.md section 2.4. Bounds are stated in the evidence file; everything outside them is outside the claim."
+NOTE = "Trusted: the symgo engine (own SSA interpreter, validated on every run by native replay of sampled paths), go/ssa, z3 4.8.12 (a sample of queries re-decided by z3 5.1.0 and cvc5), the harness oracles. Environment stubs are listed in DESIGN.md section 2.5. Bounds are stated in the evidence file; everything outside them is outside the claim."
 
 man = {
  "version": 1,
@@ -44,7 +44,7 @@ for p in props:
         man["checks"].append({
             "property_id": pid, "quick_cmd": f"./check {pid} quick", "thorough_cmd": f"./check {pid} thorough",
             "evidence_file": f"evidence/{pid}.json", "replay_cmd_template": "./check --replay {path}", "engine": "symgo",
-            "level_claimed": {"category": lvl, "text": text, "design_ref": "DESIGN.md section 4 (" + pid + ")"},
+            "level_claimed": {"category": lvl, "text": text, "design_ref": "DESIGN.md section 5 (" + pid + ")"},
             "level_note": NOTE, "technique": ("schedule exploration in the SMT-based symbolic executor (scheduler choices as decisions, happens-before race monitor), native confirmation with go test -race" if pid == "C12" else "SMT-based symbolic execution of the real Go code (go/ssa -> bit-vector SMT, z3), bounded shapes, native replay")})
     else:
         man["not_applicable"].append({"property_id": pid, "reason": NA.get(pid, "no solver-based check has been built for this property yet (work in progress; see DESIGN.md)")})
